@@ -204,7 +204,38 @@ SCENARIOS = [
     {"pubs": [["a"], ["a"]], "subs": [], "pre": [], "admin": ["connect", "close", "connect"]},      # creation race while a late worker connects / reconnects
     {"pubs": [["a", "b"], ["b", "a"]], "subs": ["*"], "pre": [], "admin": ["close", "connect"]},
     {"pubs": [["a", "a", "a", "a", "a"]], "subs": ["a"], "pre": [], "close_after": 2},             # a backlog of several messages, the consumer stops early
+    {"pubs": [["c.x", "c.q.x"], ["c.y", "c.x"]], "subs": ["c.?"], "pre": []},                      # "?" = exactly one character (c.q.x does not match)
+    {"pubs": [["a", "b"], ["b", "c.x"]], "subs": ["[ab]"], "pre": ["a"]},                          # a character class without any "*"
 ]
+
+
+def pattern_check() -> Optional[str]:
+    """MatchOnly and NoLoss for every pattern form the documentation promises (Unix shell-style patterns: "*", "?", "[seq]",
+    "[!seq]"), single-threaded: with all messages already queued, a subscription yields exactly the messages of the channels
+    its pattern matches -- channel names that contain pattern characters included."""
+    import fnmatch as _fn
+    import semantiva.execution.transport.in_memory as im
+
+    channels = ["a", "b", "c.x", "c.y", "c.q.x", "shard1", "shard[1]", "jobs.7.cfg", "jobs.12.cfg"]
+    patterns = ["a", "*", "c.*", "c.?", "?", "[ab]", "[!a]", "c.*.x", "*.x", "c.[!x]", "shard[1]", "shard[[]1]", "jobs.?.cfg", "jobs.[17].cfg", "jobs.*.cfg"]
+    for pat in patterns:
+        tr = im.InMemorySemantivaTransport()
+        for ch in channels:
+            for k in range(2):
+                tr.publish(ch, data=(ch, k), context=None)
+        got = [m.data for m in tr.subscribe(pat)]
+        want = sorted((ch, k) for ch in channels if _fn.fnmatchcase(ch, pat) for k in range(2))
+        rest = sorted(m.data for m in tr.subscribe("*"))
+        if sorted(got) != want:
+            return f"pattern {pat!r} over channels {channels}: yielded {sorted(set(c for c, _ in got))}, the pattern matches {sorted(set(c for c, _ in want))}"
+        if sorted(got + rest) != sorted((ch, k) for ch in channels for k in range(2)):
+            return f"pattern {pat!r}: after the subscription and a drain, {len(got) + len(rest)} of {2 * len(channels)} messages were delivered"
+        per_ch: Dict[str, List[int]] = {}
+        for ch, k in got:
+            per_ch.setdefault(ch, []).append(k)
+        if any(v != sorted(v) for v in per_ch.values()):
+            return f"pattern {pat!r}: a channel's messages were not yielded in publication order: {per_ch}"
+    return None
 
 
 def callback_check() -> Optional[str]:
@@ -334,6 +365,10 @@ def check(tier: str) -> int:
         if h["py"]:
             run.violation(f"history:{scenario_key(h['scn'])}", f"schedule {h['sched']}: {h['py']}",
                           {"scenario": h["scn"], "sched": list(h["sched"])})
+    bad_pat = pattern_check()
+    run.evaluations += 15
+    if bad_pat:
+        run.violation("patterns:single-threaded", bad_pat, {"patterns": True})
     bad_cb = callback_check()
     run.evaluations += 1
     if bad_cb:
